@@ -62,7 +62,7 @@ const (
 )
 
 // State is one pool: per upstream a code (o ok, u unhealthy, f failed, F full, m multi-peer with one bad peer,
-// M multi-peer all good) and a connection count for the ok ones.
+// M multi-peer all good, S multi-peer with every peer just below the per-peer limit) and a connection count for the ok ones.
 type State struct {
 	Codes string `json:"codes"`
 	Conns []int  `json:"conns"`
@@ -98,6 +98,11 @@ func (s State) build() (l4proxy.UpstreamPool, []bool) {
 		case 'M':
 			dial = append(dial, fmt.Sprintf("10.8.%d.%d:80", i/200, i%200+1))
 			st = []l4proxy.VerifPeerState{{NumConns: conns}, {NumConns: 0}}
+		case 'S':
+			// multi-peer, every peer one below the limit: the limit is per peer, so the upstream is available
+			// although the sum over its peers exceeds the limit
+			dial = append(dial, fmt.Sprintf("10.8.%d.%d:80", i/200, i%200+1), fmt.Sprintf("10.7.%d.%d:80", i/200, i%200+1))
+			st = []l4proxy.VerifPeerState{{NumConns: maxConns - 1}, {NumConns: maxConns - 1}, {NumConns: maxConns - 1}}
 		}
 		pool = append(pool, l4proxy.VerifNewUpstream(dial, maxConns, maxFails, st))
 		avail = append(avail, ok)
@@ -201,7 +206,7 @@ func run(c *fw.Ctx) {
 			if n > 0 && v%5 == 0 {
 				k := r.Intn(n)
 				if b[k] == 'o' {
-					b[k] = "mM"[r.Intn(2)]
+					b[k] = "mMS"[r.Intn(3)]
 					st.Codes = string(b)
 				}
 			}
@@ -374,6 +379,8 @@ func totalConns(st State, i int) int {
 		return maxConns
 	case 'm', 'M':
 		return st.conns(i)
+	case 'S':
+		return 3 * (maxConns - 1)
 	}
 	return st.conns(i)
 }
